@@ -189,6 +189,50 @@ theorem C18_parse_audit_guard_needed (buf : Bytes) (h : buf.length < 16) : parse
 example : parseAudit (Hdr.bytes ⟨4000000000, 1305, 0, 0, 0⟩ ++ [1, 2]) = .ok ⟨⟨4000000000, 1305, 0, 0, 0⟩, [1, 2]⟩ := by
   decide
 
+/-! ### one message per datagram -/
+
+/-- How the kernel reads a datagram it receives on a netlink socket (`netlink_rcv_skb`, `audit_receive`): while at
+least a header is left (`nlmsg_ok`: 16 bytes, a length field of at least 16 and of at most what is left) it takes one
+message, then moves on by the length field rounded up to a multiple of four (`nlmsg_next`). Every message found is
+processed as a request of its own. -/
+def kernelWalk : Nat → Bytes → List Msg
+  | 0, _ => []
+  | fuel + 1, buf =>
+    if buf.length < 16 then []
+    else
+      let h := Hdr.parse buf
+      if h.len < 16 ∨ buf.length < h.len then []
+      else ⟨h, (buf.take h.len).drop 16⟩ :: kernelWalk fuel (buf.drop ((h.len + 3) / 4 * 4))
+
+/-- One message on the wire, and nothing behind it: the kernel, walking the datagram `Send` hands to the socket, finds
+exactly one message — the caller's type, flags and payload, the length set — however many more it is prepared to look
+for. (The seeded change C18-y, a reused send buffer transmitted whole, is the failure this excludes: there the
+walk finds the headers an earlier payload left behind the message.) -/
+theorem C18_one_message_on_the_wire (m : Msg) (hw : m.hdr.WF) (hl : 16 + m.data.length < 4294967296) (fuel : Nat) :
+    kernelWalk (fuel + 1) (serialize m) = [{ hdr := { m.hdr with len := 16 + m.data.length }, data := m.data }] := by
+  have hp := C18_parse_serialize m hw hl
+  have hlen := serialize_length m
+  rw [parseAudit_of_le (by rw [hlen]; omega)] at hp
+  simp only [R.ok.injEq, Msg.mk.injEq] at hp
+  obtain ⟨hh, hd⟩ := hp
+  unfold kernelWalk
+  have h1 : ¬ (serialize m).length < 16 := by rw [hlen]; omega
+  simp only [h1, if_false, hh]
+  have h2 : ¬ (16 + m.data.length < 16 ∨ (serialize m).length < 16 + m.data.length) := by rw [hlen]; omega
+  simp only [h2, if_false]
+  have htake : (serialize m).take (16 + m.data.length) = serialize m := by
+    apply List.take_of_length_le; rw [hlen]; exact Nat.le_refl _
+  rw [htake, hd]
+  have hdrop : (serialize m).drop ((16 + m.data.length + 3) / 4 * 4) = [] := by
+    apply List.drop_of_length_le; rw [hlen]; omega
+  rw [hdrop]
+  cases fuel with
+  | zero => rfl
+  | succ f => simp [kernelWalk]
+
+/-- non-vacuity, and the walk does find what is behind a message: two requests in one datagram are two messages. -/
+example : kernelWalk 5 (serialize ⟨⟨0, 1001, 5, 7, 99⟩, [1, 2, 3]⟩) = [⟨⟨19, 1001, 5, 7, 99⟩, [1, 2, 3]⟩] := by decide
+example : (kernelWalk 5 (serialize ⟨⟨0, 1001, 5, 7, 99⟩, [1, 2, 3, 4]⟩ ++ serialize ⟨⟨0, 1000, 5, 8, 99⟩, []⟩)).length = 2 := by decide
 end LA.Netlink
 
 /-! ### the code keeps nothing between calls that the model does not have -/
